@@ -13,8 +13,8 @@ From Coq Require Import List ZArith Bool Arith.
 Import ListNotations.
 Open Scope Z_scope.
 
-Record wactor := mkActor { aid : nat; arole : nat; asingle : bool }.
-Record wgrain := mkGrain { gid : nat; gdisabled : bool; geager : bool }.
+Record wactor := mkActor { aid : N; arole : nat; asingle : bool }.
+Record wgrain := mkGrain { gid : N; gdisabled : bool; geager : bool }.
 
 (* eligibleForRole: role == "" || slices.Contains(targetRoles, role) *)
 Definition eligibleForRole (targetRoles : list nat) (role : nat) : bool :=
